@@ -59,6 +59,8 @@ def flatten(nodes, depth=0, out=None):
 def find_spec(fam, clsname, name):
     decl = fam["decls"][clsname.rsplit("_", 1)[0]]
     base = name[len("_shift_to_"):] if name.startswith("_shift_to_") else name
+    if base.startswith("_described_"):      # a described field lives in a hidden slot of that name
+        base = base[len("_described_"):]
     for f in decl["fields"]:
         if f["name"] == base:
             return decl, f
@@ -118,7 +120,7 @@ def one_case(run, bench, raw, off):
     obs_moves = []
     for (depth, cls, name, ftype, elem, enter, exit_, node) in fu:
         if ftype == "Move":
-            obs_moves.append((cls.rsplit("_", 1)[0], name[len("_shift_to_"):], enter, exit_))
+            obs_moves.append((cls.rsplit("_", 1)[0], name[len("_shift_to_"):].replace("_described_", "", 1), enter, exit_))
             if not check_move_arith(run, fam, node, 0, witness, "parsing", sig, depth):
                 return
     want_moves = [(m["cls"], m["name"], m["before"], m["after"]) for m in mr.trace.moves]
@@ -206,7 +208,7 @@ def run(run):
     rng = rng_for(run.seed, "c10", shard)
     nfam = 520 if run.tier == "quick" else 2200
     ninputs = 10 if run.tier == "quick" else 12
-    profile = {"p_move": 0.45, "p_backward_at": 0.12, "p_class_align": 0.15, "p_rep": 0.2,
+    profile = {"p_describe": 0.06, "p_move": 0.45, "p_backward_at": 0.12, "p_class_align": 0.15, "p_rep": 0.2,
                "kinds": {"int": 36, "data": 22, "bits": 8, "ref": 20, "sel": 4, "em": 8}}
     if run.tier == "thorough":
         profile["max_depth"] = 4
